@@ -477,7 +477,10 @@ class Ev:
             raise Unknown("**kw")
         fname = ast.unparse(n.func)
         if fname in self.hooks:
-            return self.hooks[fname]([self.ev(a) for a in n.args])
+            h = self.hooks[fname]
+            if getattr(h, "wants_kw", False):
+                return h([self.ev(a) for a in n.args], {k.arg: self.ev(k.value) for k in n.keywords})
+            return h([self.ev(a) for a in n.args])
         if isinstance(n.func, ast.Attribute) and self.hooks:
             # receiver given through a local alias of the hooked object
             recv = n.func.value
@@ -765,10 +768,8 @@ class Ev:
             return _FALL
         if isinstance(st, ast.Delete):
             for t in st.targets:
-                if isinstance(t, ast.Name) and t.id in self.env and not any(t.id == k for k in ()):
-                    # a deleted loop variable: keep other bindings
-                    if isinstance(self.env.get(t.id), (dict, list)) is False:
-                        del self.env[t.id]
+                if isinstance(t, ast.Name) and t.id in self.env:
+                    del self.env[t.id]
                 elif isinstance(t, ast.Subscript):
                     base = self.ev(t.value)
                     try:
